@@ -58,7 +58,7 @@ for _id, _what in [("C17", "supply == sum of all balances, canonical coin sets, 
     claim(_id, "E3-chain", "exploration", "state invariant monitored on the persisted stores after every Commit of generated chaos histories (real app via ABCI, child process per node)",
           "generated multi-actor block histories (stakes, edits, unstakes, jailing via missed votes, double-sign evidence, DAO actions, parameter changes, time jumps) run on the real application; after every commit: " + _what + "; held-on-observed",
           E3NOTE, "DESIGN.md §4 " + _id)
-claim("C33", "E6-ref", "exploration", "differential runtime monitor vs independent reference session selector over generated node populations; cross-process determinism",
+claim("C33", "E6-ref", "exploration", "differential runtime monitor vs independent reference session selector over generated node populations; cross-process determinism; on the full node: every session served by dispatch requests after each Commit of generated histories judged against the reference selection over the decoded node records of the session start",
       "types.NewSession driven with a stub keeper over tens of thousands of generated populations (jailed, over-chained, missing, chain-less nodes; heights around the max-chains activation); result compared with an independently written selector (own SHA3), distinctness/count/eligibility/error-iff asserted, repeated in a second OS process; held-on-observed",
       "trusted: Go runtime, the reference selector in internal/ref/sessionref (imports nothing from pocket-core)", "DESIGN.md §4 C33")
 ENGINES.append({"name": "E6-ref", "path": "internal/ref/*", "serves_properties": ["C33"], "kind_free_text": "independent reference implementations used as oracles for pure functions"})
@@ -81,7 +81,7 @@ claim("C23", "E3-chain", "exploration", "per-transaction record-level oracle (no
 claim("C28", "E3-chain", "exploration", "per-transaction oracle on observed pre-state admission conditions and post-state record (reference MaxRelays from stored params) for application stake/transfer; every accepted stake request (first or edit) judged on the resulting record; half of the scripts with a one-chain limit",
       "application stakes around the minimum, the chain limit, the balance and the MaxApplications limit, plus transfers by applications and non-applications; every accepted stake must have satisfied all admission conditions in the observed pre-state and produce the reference record; transfers must move the record intact; held-on-observed",
       TXNOTE, "DESIGN.md §4 C28")
-claim("C36", "E3-chain", "exploration", "per-transaction oracle over every ACL key read from chain state x signer relation (owner / owner of another key / stranger) plus DAO and upgrade actions; a rotating key (every third script gov/daoOwner) handed to another address, DAO owner replaced in a quarter of the scripts, the DAO owner read from the pre-state",
+claim("C36", "E3-chain", "exploration", "per-transaction oracle over every ACL key read from chain state x signer relation (owner / owner of another key / stranger) plus DAO and upgrade actions; a rotating key (every third script gov/daoOwner) handed to another address, DAO owner replaced in a quarter of the scripts, the DAO owner read from the pre-state; in every other script the handed key is exercised inside the handover block",
       "for every parameter key in the chain's own ACL (41 after feature activation) change-param by owner, owner-of-another-key and stranger: non-owners must leave the params store untouched, owner changes must store exactly the submitted value and nothing else; DAO transfers/burns up to and beyond the balance by owner and non-owner; exhaustive over keys, sampled values/orders",
       TXNOTE, "DESIGN.md §4 C36")
 
@@ -127,14 +127,14 @@ claim("C11", "E3-chain", "exploration", "twin-process differential + store-diges
 claim("C13", "E3-chain", "exploration", "twin-process differential: node serving historical custom queries / app.Query* / dispatch / mixed traffic vs a node that never served anything; app hashes and tx results compared for every block",
       "histories built to trigger stale-cache-then-state-change orderings (7 applications against a 5-entry LRU with constant edit-stakes, jailing, unstaking) with off-chain reads at past heights and dispatches between ABCI calls; any divergence is a witness; the application-LRU leak found this way was repaired (fix: commit); relay handling is covered by C34/C35; held-on-observed",
       E3NOTE, "DESIGN.md §4 C13")
-claim("C16", "E3-chain", "exploration", "per-transaction pre/post oracle on second deliveries: identical bytes and 6 semantics-preserving protobuf re-encodings (validated with the app's own decoder) in the same and later blocks; plus identical bytes after a first delivery that failed in its handler having paid the fee",
+claim("C16", "E3-chain", "exploration", "per-transaction pre/post oracle on second deliveries: identical bytes and 6 semantics-preserving protobuf re-encodings (validated with the app's own decoder) in the same and later blocks; plus identical bytes after a first delivery that failed in its handler having paid the fee; every other original shares its block with an ante-rejected transaction (the indexer receives one batch per block)",
       "for 6 message kinds x 7 resubmission classes x 4 placements a freshly signed tx is delivered, then resubmitted; the second delivery must be rejected with all store digests unchanged; identical bytes are rejected, all six re-encodings execute again: listed as 12 known findings (class x placement); legacy amino era not exercised",
       TXNOTE, "DESIGN.md §4 C16")
 ENGINES[-3]["serves_properties"] += ["C24", "C25"]
 claim("C24", "E3-chain", "exploration", "transition monitor over consecutive committed snapshots of chaos histories + generator ledger (causes, session boundaries, completion times, payouts)",
       "every Staked->Unstaking transition needs a cause (accepted begin-unstake or forced-unstake condition) and a session boundary; applications only by their own request; no unstaking record survives its completion time or disappears early; the stake is returned to the output/application address in the completion block (exactly, when no other ledger flow or same-block slash can interfere); staked records never vanish; held-on-observed",
       E3NOTE, "DESIGN.md §4 C24")
-claim("C25", "E3-chain", "exploration", "monitor on post-BeginBlock / per-tx snapshots of chaos histories: slash accounting, below-minimum => jailed+queued, dispatch results vs jailed set, pre-state of every accepted unjail AND the monitor's own record of the jail deadline set when each jail began",
+claim("C25", "E3-chain", "exploration", "monitor on post-BeginBlock / per-tx snapshots of chaos histories: slash accounting, below-minimum => jailed+queued, dispatch results vs jailed set, pre-state of every accepted unjail AND the monitor's own record of the jail deadline set when each jail began; keeper-bench conservation monitor around Keeper.BurnForChallenge sequences sized around the remaining stake",
       "downtime and double-sign slashes (including ones capped at the whole stake) must burn exactly what the nodes lose, from pool and supply alike; nodes under the minimum are jailed and queued to unstake at every observed point; ~2000 dispatches per run never list a jailed node; every accepted unjail had an authorized signer, the minimum stake and an expired jail period; held-on-observed",
       E3NOTE + "; per-tx snapshots as in TXNOTE", "DESIGN.md §4 C25")
 HOOK_COMMITS.append("8945e6b verif hook H2: Newton-iteration counter in types/decimal.go ApproxRoot (types/verif_on.go, types/verif_off.go)")
